@@ -58,22 +58,7 @@ func Check_EndToEnd() {
 		maxFields, maxRecs = 3, 3
 	}
 	maxFields = sx.Param("maxFields", maxFields)
-	var kinds []common.Kind
-	if sx.Tier() > 0 && maxFields == 3 {
-		// pairs over the full pool, triples over a reduced pool
-		n := sx.Range("nfields", 1, 3)
-		kinds = make([]common.Kind, n)
-		tri := []common.Kind{common.KU8, common.KS32, common.KF64, common.KBool, common.KMac, common.KIPv6, common.KString, common.KOctetVar, common.KOctetFix, common.KRevU64}
-		for i := range kinds {
-			if n == 3 {
-				kinds[i] = tri[sx.Choose("kind", len(tri))]
-			} else {
-				kinds[i] = common.Kind(sx.Choose("kind", int(common.NumKinds)))
-			}
-		}
-	} else {
-		kinds = common.DrawKinds(maxFields)
-	}
+	kinds := common.DrawKindsTiered(maxFields)
 	tplID := sx.U16("tplID")
 	sx.Assume(tplID >= 256)
 	domain := sx.U32("domain")
@@ -87,6 +72,9 @@ func Check_EndToEnd() {
 
 	_, err = ep.SendSet(common.TemplateSet(tplID, kinds))
 	sx.Assert(err == nil, "template-send")
+	if len(kinds) == 3 {
+		maxRecs = 2
+	}
 	nrec := sx.Range("nrec", 1, maxRecs)
 	recs := common.DrawRecords(kinds, nrec)
 	_, err = ep.SendSet(common.DataSet(tplID, recs))
